@@ -276,3 +276,8 @@ if __name__ == "__main__":
     from vf import runner
 
     sys.exit(runner.main("checks.c19", sys.argv[1:]))
+
+# part (a): genotype indexing (LLSym) lives in its own module
+from checks.c19_geno import SUBCHECKS as _GENO_SUBCHECKS
+
+SUBCHECKS.update(_GENO_SUBCHECKS)
